@@ -409,6 +409,48 @@ func init() {
 				}
 			}
 		}
+		// ---- a response that breaks off once and is served completely when asked again: whenever the
+		// proxy answers 200, the body is exactly the payload ---------------------------------------------
+		if c.Part == 0 {
+			pa := payloads["70KiB"]
+			for _, gzipOn := range []bool{false, true} {
+				wa := pa
+				if gzipOn {
+					wa = gz(pa)
+				}
+				for _, cut := range []int{1, 30000, len(wa) - 1} {
+					idx++
+					n := 0
+					net.Serve = func(req *http.Request) rig.Answer {
+						n++
+						if n == 1 {
+							return rig.Answer{Gzip: gzipOn, BodyReader: func() io.ReadCloser { return &breakReader{data: wa, cut: cut} }}
+						}
+						return rig.Answer{Gzip: gzipOn, BodyReader: func() io.ReadCloser { return &chunkReader{data: wa} }}
+					}
+					w := &shortWriter{hdr: http.Header{}}
+					func() {
+						defer func() {
+							if rec := recover(); rec != nil {
+								if rec != http.ErrAbortHandler {
+									panic(rec)
+								}
+								w.code = -1
+							}
+						}()
+						sc.Px.ServeHTTP(w, httptest.NewRequest("GET", rig.ProxyURL("j1", 1, "http", "ta:80", "/metrics", nil), nil))
+					}()
+					r.States++
+					r.Transitions++
+					r.Nontrivial++
+					if (w.code == 200 || w.code == 0) && !bytes.Equal(w.buf.Bytes(), pa) {
+						cs := c12Case{Payload: "70KiB, first response breaks off, second complete", Len: len(pa), Gzip: gzipOn, Assigned: true, Sched: []int{cut}}
+						r.Violate("C12:bytes:after-transient-break", "byte-for-byte", fmt.Sprintf("gzip=%v break at %d: answered 200 with %d bytes, the payload has %d", gzipOn, cut, w.buf.Len(), len(pa)), idx,
+							&c12Replay{Property: "C12", Clause: "byte-for-byte", Case: cs})
+					}
+				}
+			}
+		}
 	})
 }
 
